@@ -21,6 +21,17 @@ CHECKS = {
             'available to rebuild them). Lines on which elimination without pivoting has a (near-)zero pivot get a proportionally wider tolerance '
             'and are counted in evidence. delj-on references are float (exp); quick tier thins the parameter lattice (cap reported).',
             'DESIGN.md §3 C02'),
+    'C06': ('model_checking',
+            'explicit-state BFS from every unit density over split/admix/pulse/remove/filter/reorder with proportions on simplex lattices, stepping an exact Fraction density alongside the real PhiManip call',
+            'From every unit density of 1-5 dimensional arrays a breadth-first search applies every constructor, each of the 17 in-place pulse '
+            'functions, removal, filtering and reordering with all proportion vectors of the step-1/4 (dyadic, frequencies land on grid points) '
+            'and step-1/10 lattices; every transition calls the real function and is compared with the exact rational density, and the '
+            'conservation invariants (new population integrates out to the previous density, pulse leaves the others unchanged, identity at 0, '
+            'pure split is a diagonal copy, input untouched) are evaluated on each. Acceptance of every simplex vector and rejection of every '
+            'vector summing to 1+delta is enumerated for every function; memory layouts for remove/reorder.',
+            'Same grid on every axis (the API takes one xx); phi_1D_to_2D conserves interior points only, as documented; quick tier bounds depth '
+            '(2 from 1-D/2-D, 1 from 3-D..5-D) and uses the step-1/2 lattice for 3-4 source pulses in 4-D/5-D (cap reported).',
+            'DESIGN.md §3 C06'),
     'C07': ('model_checking',
             'exhaustive enumeration of (k, all k! grid orderings, degree basis, mode, result type, call style) against an exact Fraction Lagrange oracle',
             'Every configuration of the bounded space (k=1..7 grid sizes, every ordering, every monomial degree <k plus a full-degree '
